@@ -158,9 +158,17 @@ def build(spec, pres=None, interp=True, weights_transform=None, dtype=None, requ
         for n in pres['factor_order']:
             t = spec['terms'][n]
             shape = [dom_size(spec['domains'][x]) for x in t['type']]
-            if t.get('pattern') is not None and weights_transform is None and not any(x in pres['dom_perm'] for x in t['type']):
+            if t.get('pattern') is not None and not any(x in pres['dom_perm'] for x in t['type']):
                 from .ref.tensor_ref import mk_patterned
-                w = mk_patterned(t['pattern'], dt)
+                import sys as _sys
+                w = mk_patterned(t['pattern'], torch.float64)
+                if weights_transform is not None:
+                    # elementwise transform (log / support) of the stored elements and of the default
+                    ph = weights_transform(n, w.physical)
+                    df = weights_transform(n, torch.tensor(float(w.default), dtype=torch.float64)).item()
+                    w = _sys.modules['fggs.indices'].PatternedTensor(ph, w.paxes, w.vaxes, df)
+                if w.physical.dtype.is_floating_point and w.physical.dtype != dt:
+                    w = _sys.modules['fggs.indices'].PatternedTensor(w.physical.to(dt), w.paxes, w.vaxes, w.default)
                 B.patterned = getattr(B, 'patterned', 0) + 1
             else:
                 w = torch.tensor(t['weights'], dtype=torch.float64).reshape(shape)
